@@ -35,7 +35,9 @@ func probeDefs(dir string) {
 			for _, r := range refs {
 				rs = append(rs, fmt.Sprintf("%d:%d", r.Range.Start.Line, r.Range.Start.Character))
 			}
-			fmt.Printf("%d:%d %-8s def=%-10s refs=%v\n", ln, m[0], name, d, rs)
+			hv, _ := s.Hover("main.lua", ln, m[0])
+			hl, _ := s.Highlight("main.lua", ln, m[0])
+			fmt.Printf("%d:%d %-8s def=%-10s refs=%v hl=%d hover=%q\n", ln, m[0], name, d, rs, len(hl), lib.Trunc(hv, 60))
 		}
 	}
 }
